@@ -20,11 +20,12 @@ import (
 
 // opRec is one operation that reached the bottom store.
 type opRec struct {
-	Op      string // get | set | del
-	Key     string // full key as the session store built it ("oauth/code/<code>")
-	Found   bool   // get: a live value was returned
-	Merged  bool   // first operation of a harness thread: performed in the thread's start step, without a scheduling point of its own
-	After   string // abstract store content after the operation (aliased keys present + number of other keys)
+	Op     string // get | set | del (| take | setnx: atomic primitives, only used by repair sketches)
+	Key    string // full key as the session store built it ("oauth/code/<code>")
+	Found  bool   // get: a live value was returned
+	Merged bool   // first operation of a harness thread: performed in the thread's start step, without a scheduling point of its own
+	Glued  bool   // operation on a key private to the request, performed in the same step as the thread's previous operation
+	After  string // abstract store content after the operation (aliased keys present + number of other keys)
 }
 
 // vstore is the store.StoreInterface handed to the REAL cache.Cache / SessionStoreImpl /
@@ -47,7 +48,13 @@ type vstore struct {
 	// operation is local to it, so that prefix and the first operation form ONE step; without this every thread would
 	// have one more (empty) step and the 3-thread spaces would be explored with ~20x redundant interleavings.
 	skipPoint bool
-	zeroOps   []bool // per harness thread: it finished without any store operation
+	// gluePrivate (3-thread OpenID4VP scenarios only): an operation on a key that is not one of the harness's named
+	// keys - a freshly generated 256-bit access token or authorization code, which no other request can name - takes
+	// no scheduling point of its own. Such an operation commutes with every operation of every other thread (other
+	// key, same results, same final store), so each interleaving that is skipped is equivalent to one that is explored.
+	// judge() verifies after every execution that each such key was indeed touched by one thread only.
+	gluePrivate bool
+	zeroOps     []bool // per harness thread: it finished without any store operation
 }
 
 func newVStore(alias map[string]string) *vstore {
@@ -94,23 +101,27 @@ func (s *vstore) expire(ctx context.Context, k string) {
 	}
 }
 
-func (s *vstore) rec(op, k string, found, merged bool) {
-	s.log = append(s.log, opRec{Op: op, Key: k, Found: found, Merged: merged, After: s.abstract()})
+func (s *vstore) rec(op, k string, found bool, how int) {
+	s.log = append(s.log, opRec{Op: op, Key: k, Found: found, Merged: how == 1, Glued: how == 2, After: s.abstract()})
 }
 
-// point is the scheduling point in front of an operation (skipped for the first operation of a thread).
-func (s *vstore) point(label string) (merged bool) {
+// point is the scheduling point in front of an operation. It is skipped for the first operation of a thread
+// (result 1) and, when gluePrivate is set, for operations on request-private keys (result 2).
+func (s *vstore) point(op string, k string) int {
 	if s.skipPoint {
 		s.skipPoint = false
-		return true
+		return 1
 	}
-	sched.Point(label)
-	return false
+	if _, named := s.alias[k]; s.gluePrivate && !named {
+		return 2
+	}
+	sched.Point(op + " " + s.name(k))
+	return 0
 }
 
 func (s *vstore) Get(ctx context.Context, key any) (any, error) {
 	k := key.(string)
-	merged := s.point("get " + s.name(k))
+	merged := s.point("get", k)
 	s.mu.Lock()
 	defer s.mu.Unlock()
 	s.expire(ctx, k)
@@ -121,7 +132,7 @@ func (s *vstore) Get(ctx context.Context, key any) (any, error) {
 
 func (s *vstore) GetWithTTL(ctx context.Context, key any) (any, time.Duration, error) {
 	k := key.(string)
-	merged := s.point("get " + s.name(k))
+	merged := s.point("get", k)
 	s.mu.Lock()
 	defer s.mu.Unlock()
 	s.expire(ctx, k)
@@ -136,7 +147,7 @@ func (s *vstore) GetWithTTL(ctx context.Context, key any) (any, time.Duration, e
 
 func (s *vstore) Set(ctx context.Context, key any, value any, options ...store.Option) error {
 	k := key.(string)
-	merged := s.point("set " + s.name(k))
+	merged := s.point("set", k)
 	s.mu.Lock()
 	defer s.mu.Unlock()
 	o := store.ApplyOptions(options...)
@@ -157,7 +168,7 @@ func (s *vstore) Set(ctx context.Context, key any, value any, options ...store.O
 
 func (s *vstore) Delete(ctx context.Context, key any) error {
 	k := key.(string)
-	merged := s.point("del " + s.name(k))
+	merged := s.point("del", k)
 	s.mu.Lock()
 	defer s.mu.Unlock()
 	err := s.inner.Delete(ctx, key)
@@ -165,6 +176,49 @@ func (s *vstore) Delete(ctx context.Context, key any) error {
 	delete(s.present, k)
 	s.rec("del", k, false, merged)
 	return err
+}
+
+// Take and SetIfAbsent are atomic primitives that the product does NOT use today (storage.SessionStoreImpl knows
+// nothing of them). They exist so that a repair of the double-redemption windows - which needs exactly such a
+// primitive per back-end - can be run under this check: each is ONE scheduling point. See mutants/c05/RESULTS.md
+// (atomic-primitives sketch) for the run that shows the check is silent when they are used.
+func (s *vstore) Take(ctx context.Context, key any) (any, error) {
+	k := key.(string)
+	how := s.point("take", k)
+	s.mu.Lock()
+	defer s.mu.Unlock()
+	s.expire(ctx, k)
+	v, err := s.inner.Get(ctx, key)
+	if err == nil {
+		_ = s.inner.Delete(ctx, key)
+		delete(s.exp, k)
+		delete(s.present, k)
+	}
+	s.rec("take", k, err == nil, how)
+	return v, err
+}
+
+func (s *vstore) SetIfAbsent(ctx context.Context, key any, value any, options ...store.Option) (bool, error) {
+	k := key.(string)
+	how := s.point("setnx", k)
+	s.mu.Lock()
+	defer s.mu.Unlock()
+	s.expire(ctx, k)
+	if _, err := s.inner.Get(ctx, key); err == nil {
+		s.rec("setnx", k, true, how)
+		return false, nil
+	}
+	o := store.ApplyOptions(options...)
+	err := s.inner.Set(ctx, key, value, store.WithExpiration(24*time.Hour))
+	if err == nil {
+		if o.Expiration > 0 {
+			s.exp[k] = vtime.Now().Add(o.Expiration)
+			s.ttl[k] = o.Expiration
+		}
+		s.present[k] = true
+	}
+	s.rec("setnx", k, false, how)
+	return err == nil, err
 }
 
 func (s *vstore) Invalidate(ctx context.Context, options ...store.InvalidateOption) error {
